@@ -12,7 +12,7 @@ from pedal.resolvers import simple, full
 from resolver_common import (RANK, KINDS, COMPLIMENT, spec_key, Sup, suppression_status, DEFAULT_LABEL)
 
 CATS = ["syntax", "runtime", "Instructor", "system", "weird", None]
-PRIOS = [None, "high", "low", "student", "parser", "lowest"]
+PRIOS = [None, "high", "low", "student", "parser", "lowest", "highest", "Analyzer"]
 
 
 def _part(n, default):
@@ -50,7 +50,7 @@ def order2(c0a: bool, c0b: bool, c0c: bool, p0a: bool, p0b: bool, p0c: bool, a0:
     fixed = _part(2, None)
     c0, p0 = (fixed if fixed else (bits(c0a, c0b, c0c), bits(p0a, p0b, p0c)))
     c1, p1 = bits(c1a, c1b, c1c), bits(p1a, p1b, p1c)
-    if c0 >= 6 or c1 >= 6 or p0 >= 6 or p1 >= 6:
+    if c0 >= 6 or c1 >= 6 or p0 >= 8 or p1 >= 8:
         return True
     if excluded("C01.order2", c0=c0, p0=p0, a0=a0, c1=c1, p1=p1, a1=a1):
         return True
@@ -158,7 +158,8 @@ def flags2(a0: bool, mu0: bool, k0a: bool, k0b: bool, e0: bool,
 # Slice B2: suppressions.  f0 is the feedback under test; f1 is a never-suppressed, lower-ranked fallback.
 SCATS = ["RUNTIME", "parser", "weird"]     # spellings handed to suppress(): case variant, alias, unrelated
 FCATS = ["runtime", "syntax"]               # categories of f0
-SLABELS = ["a", "b", "A"]                   # suppress() labels: equal to f0's, different, different by case only
+SLABELS = ["a", "b", "A", "Ab"]             # suppress() labels: equal / different / case variant of "a"; equal to "Ab"
+FLABELS = ["a", "Ab"]                       # label of f0 (lower case, and mixed case as a CamelCase class name gives)
 FORMS = ["cat", "cat+label", "label", "label+fields", "cat+label+fields"]
 
 
@@ -174,7 +175,7 @@ def _mk_sup(form, sc, sl, sv):
     return Sup(SCATS[sc], sl, {"k": sv})
 
 
-def suppress2(fc: bool, fv: int, has_field: bool,
+def suppress2(fc: bool, fl: bool, fv: int, has_field: bool, fw: int, two_fields: bool,
               sa_c0: bool, sa_c1: bool, sa_l0: bool, sa_l1: bool, sa_v: int,
               sb_c0: bool, sb_c1: bool, sb_l0: bool, sb_l1: bool, sb_v: int) -> bool:
     """
@@ -191,23 +192,30 @@ def suppress2(fc: bool, fv: int, has_field: bool,
     forms = [int(x) for x in (PART.rstrip(",F") or "1,2").split(",") if x != ""]
     ca, cb = bits(sa_c0, sa_c1), bits(sb_c0, sb_c1)
     la, lb = bits(sa_l0, sa_l1), bits(sb_l0, sb_l1)
-    if ca >= 3 or cb >= 3 or la >= 3 or lb >= 3:
+    if ca >= 3 or cb >= 3:
         return True
     fcat = FCATS[1 if fc else 0]
-    if excluded("C01.suppress2", forms=forms, fcat=fcat, fv=fv, has_field=has_field, ca=ca, la=la,
+    flabel = FLABELS[1 if fl else 0]
+    if excluded("C01.suppress2", forms=forms, fcat=fcat, flabel=flabel, fv=fv, has_field=has_field, ca=ca, la=la,
                 sa_v=sa_v, cb=cb, lb=lb, sb_v=sb_v):
         return True
     sups = [_mk_sup(forms[0], ca, SLABELS[la], sa_v)]
     if len(forms) > 1:
         sups.append(_mk_sup(forms[1], cb, SLABELS[lb], sb_v))
+    if two_fields:
+        for s_ in sups:                      # suppressions naming two fields: BOTH must match
+            if s_.fields is not None:
+                s_.fields = {"k": s_.fields["k"], "w": 7}
     r = Report()
     fields = {"k": fv} if has_field else {}
-    f0 = Feedback(label="a", category=fcat, message="M0", fields=dict(fields), report=r)
+    if two_fields:
+        fields["w"] = fw
+    f0 = Feedback(label=flabel, category=fcat, message="M0", fields=dict(fields), report=r)
     f1 = Feedback(label="zz-fallback", category="lowest", message="M1", report=r)
     for s in sups:
         s.apply(r)
     final = (full.resolve(r) if use_full else simple.resolve(r))
-    st = suppression_status(sups, fcat, "a", fields)
+    st = suppression_status(sups, fcat, flabel, fields)
     if st == -1:
         return True           # labels differing only by case: not settled by the property text
     if st == 1:
@@ -216,7 +224,7 @@ def suppress2(fc: bool, fv: int, has_field: bool,
         if use_full:
             ok = ok and not any(u is f0 for u in final.used)
         return ok
-    ok = final.label == "a" and final.message == "M0"
+    ok = final.label == flabel and final.message == "M0"
     if use_full:
         ok = ok and any(u is f0 for u in final.used)
     return ok
